@@ -29,11 +29,11 @@ FINDINGS = [
      "float(detail.split('largest I(k+1)/I(k) = ')[1].split(' ')[0]) <= 1.5",
      "same cause as C04/step/nonincrease-potential observed through Probe/Waves.multislice thickness series (+5e-5 .. 3e-4 per slice)"),
     # C06 -------------------------------------------------------------------------------------------------
-    ("C06", "C06/reduce/exit-waves-equal-probe-multislice", "case.get('potential') in ('fp_mean', 'ensemble_mean')",
+    ("C06", "C06/reduce/exit-waves-equal-probe-multislice", "case.get('potential') in ('fp_mean', 'ensemble_mean') and 'shape' in detail and 'rel err' not in detail",
      "eager SMatrix.reduce/scan with an ensemble_mean potential averages exit waves coherently and drops the phonon axis (_eager_build_s_matrix_detect)"),
-    ("C06", "C06/reduce/measurements-equal-probe-multislice", "case.get('potential') in ('fp_mean', 'ensemble_mean')",
+    ("C06", "C06/reduce/measurements-equal-probe-multislice", "case.get('potential') in ('fp_mean', 'ensemble_mean') and 'shape' in detail and 'rel err' not in detail",
      "eager SMatrixArray.reduce never averages over ensemble_mean axes / leaves singleton axes (shape mismatch with lazy and with Probe)"),
-    ("C06", "C06/reduce/lazy-equals-eager", "case.get('potential') in ('fp_mean', 'ensemble_mean')",
+    ("C06", "C06/reduce/lazy-equals-eager", "case.get('potential') in ('fp_mean', 'ensemble_mean') and 'shape' in detail and 'rel err' not in detail",
      "eager and lazy PRISM reduction disagree in shape for ensemble_mean potentials (see the two entries above)"),
     ("C06", "C06/no-exception", "case.get('kind') == 'interp' and 'IndexError' in detail and 'out of bounds' in detail and 'abtem/prism/s_matrix.py' in detail",
      "interpolated S-matrix reduction raises IndexError in batch_crop_2d for probe positions whose crop window wraps around the array edge"),
